@@ -620,7 +620,13 @@ func atomicAdd(r *Run, fn *ssa.Function, a []Value) Value {
 	r.store(p, v)
 	return v
 }
-func atomicLoad(r *Run, fn *ssa.Function, a []Value) Value { return r.load(a[0].(*PtrV)) }
+func atomicLoad(r *Run, fn *ssa.Function, a []Value) Value {
+	if os.Getenv("GOSYM_STACK") != "" {
+		p := a[0].(*PtrV)
+		fmt.Fprintf(os.Stderr, "[atomicLoad] %s path=%v obj=%T\n", fn.String(), p.path, p.obj.val)
+	}
+	return r.load(a[0].(*PtrV))
+}
 func atomicStore(r *Run, fn *ssa.Function, a []Value) Value {
 	r.store(a[0].(*PtrV), a[1])
 	return nil
